@@ -54,6 +54,59 @@ class MPBFloatContext___init__(Contract):
     properties = ['C01']
     binds = {'self.nan_value': 'nan_value', 'self.inf_value': 'inf_value', 'self.rng': 'rng'}
     split = ['neg_maxval', 'nan_value', 'inf_value']
+    options = {'symbolic_tier': 'thorough'}     # substitutes: minutes per case
+
+    def post(self, pmax, emin, maxval, rm, overflow, num_randbits, neg_maxval, rng, enable_nan, enable_inf,
+             nan_value, inf_value, result):
+        return {
+            # inv_MPBFloatContext, clause by clause
+            'inv_pmax': self.pmax >= 1,
+            'inv_pos_sign': not self.pos_maxval._s,
+            'inv_neg_sign': self.neg_maxval._s,
+            'inv_no_wrap': self.overflow.name != 'WRAP',
+            'inv_fmt': self._fmt.pmax == self.pmax and self._fmt.emin == self.emin,
+            'inv_fmt_pos': same_real(self._fmt.pos_maxval, self.pos_maxval),
+            'inv_fmt_neg': same_real(self._fmt.neg_maxval, self.neg_maxval),
+            # the parameters are stored as given
+            'pmax': self.pmax == pmax,
+            'emin': self.emin == emin,
+            'pos_maxval': same_real(self.pos_maxval, maxval),
+            'neg_maxval': (same_real(self.neg_maxval, neg_maxval) if neg_maxval is not None
+                           else (self.neg_maxval._s and self.neg_maxval._exp == maxval._exp and self.neg_maxval._c == maxval._c)),
+            'rm': self.rm.name == rm.name,
+            'overflow': self.overflow.name == overflow.name,
+            'num_randbits': (self.num_randbits is None) if num_randbits is None
+                            else (self.num_randbits is not None and self.num_randbits == num_randbits),
+            'enable_nan': self.enable_nan == enable_nan,
+            'enable_inf': self.enable_inf == enable_inf,
+            'fmt_enable': self._fmt.enable_nan == enable_nan and self._fmt.enable_inf == enable_inf,
+            # K5: the substitutes are members of the format (the infinity substitute under either sign)
+            'nan_value_member': mpb2_member(pmax, emin, self.pos_maxval, self.neg_maxval, enable_nan, enable_inf, nan_value, nan_value._real._s)
+                                if (nan_value is not None and not enable_nan) else True,
+            'inf_value_member': (mpb2_member(pmax, emin, self.pos_maxval, self.neg_maxval, enable_nan, enable_inf, inf_value, False)
+                                 and mpb2_member(pmax, emin, self.pos_maxval, self.neg_maxval, enable_nan, enable_inf, inf_value, True))
+                                if (inf_value is not None and not enable_inf) else True,
+        }
+
+    def raises(self, pmax, emin, maxval, rm, overflow, num_randbits, neg_maxval, rng, enable_nan, enable_inf,
+               nan_value, inf_value):
+        neg_bad = ((not neg_maxval._s) or not mps_member_real(pmax, emin, neg_maxval)) if neg_maxval is not None else False
+        fmt_bad = (pmax < 1 or maxval._s or neg_bad or ((not mps_member_real(pmax, emin, maxval)) if pmax >= 1 else False))
+        return {'ValueError': overflow.name == 'WRAP' or fmt_bad
+                              or mpb2_subst_bad(pmax, emin, maxval, neg_maxval, enable_nan, enable_inf, nan_value, inf_value)}
+
+
+class MPBFloatContext___init___plain(Contract):
+    target = 'fpy2.number.context.mpb_float:MPBFloatContext.__init__'
+    params = {'self': 'MPBFloatContext', 'pmax': 'int', 'emin': 'int', 'maxval': 'RealFloat', 'rm': 'RoundingMode',
+              'overflow': 'OverflowMode', 'num_randbits': 'int | None', 'neg_maxval': 'RealFloat | None',
+              'rng': 'RNG | None', 'enable_nan': 'bool', 'enable_inf': 'bool',
+              'nan_value': 'None', 'inf_value': 'None'}
+    returns = 'None'
+    properties = ['C01']
+    binds = {'self.nan_value': 'nan_value', 'self.inf_value': 'inf_value', 'self.rng': 'rng'}
+    split = ['neg_maxval']
+    inline = True      # the variant without substitutes (quick tier)
 
     def post(self, pmax, emin, maxval, rm, overflow, num_randbits, neg_maxval, rng, enable_nan, enable_inf,
              nan_value, inf_value, result):
@@ -138,6 +191,56 @@ class MPBFixedContext___init__(Contract):
     properties = ['C01']
     binds = {'self.nan_value': 'nan_value', 'self.inf_value': 'inf_value', 'self.rng': 'rng'}
     split = ['neg_maxval', 'nan_value', 'inf_value']
+    options = {'symbolic_tier': 'thorough'}     # substitutes: minutes per case
+
+    def post(self, nmin, maxval, rm, overflow, num_randbits, neg_maxval, rng, enable_nan, enable_inf, enable_neg_zero,
+             nan_value, inf_value, result):
+        f = self._fmt
+        return {
+            # inv_MPBFixedContext, clause by clause
+            'inv_signs': (self.pos_maxval._c == 0 or not self.pos_maxval._s) and (self.neg_maxval._c == 0 or self.neg_maxval._s),
+            'inv_fmt_nmin': f.nmin == self.nmin,
+            'inv_fmt_enable': f.enable_nan == self.enable_nan and f.enable_inf == self.enable_inf,
+            'inv_fmt_pos': same_real(f.pos_maxval, self.pos_maxval),
+            'inv_fmt_neg': same_real(f.neg_maxval, self.neg_maxval),
+            'inv_mp_fmt': f._mp_fmt.nmin == self.nmin and f._mp_fmt.enable_neg_zero == self.enable_neg_zero
+                          and f._mp_fmt.enable_nan == self.enable_nan and f._mp_fmt.enable_inf == self.enable_inf,
+            # the precondition `fmt_ordinals` of the rounding contracts
+            'fmt_ordinals': mpbx_ordinals(self),
+            # the parameters are stored as given
+            'nmin': self.nmin == nmin,
+            'pos_maxval': same_real(self.pos_maxval, maxval),
+            'neg_maxval': (same_real(self.neg_maxval, neg_maxval) if neg_maxval is not None
+                           else (self.neg_maxval._s and self.neg_maxval._exp == maxval._exp and self.neg_maxval._c == maxval._c)),
+            'rm': self.rm.name == rm.name,
+            'overflow': self.overflow.name == overflow.name,
+            'num_randbits': (self.num_randbits is None) if num_randbits is None
+                            else (self.num_randbits is not None and self.num_randbits == num_randbits),
+            'enable': self.enable_nan == enable_nan and self.enable_inf == enable_inf and self.enable_neg_zero == enable_neg_zero,
+            # K5: the substitutes are members of the format (they are delivered as configured)
+            'nan_value_member': mpbx2_member(self, nan_value) if (nan_value is not None and not enable_nan) else True,
+            'inf_value_member': mpbx2_member(self, inf_value) if (inf_value is not None and not enable_inf) else True,
+        }
+
+    def raises(self, nmin, maxval, rm, overflow, num_randbits, neg_maxval, rng, enable_nan, enable_inf, enable_neg_zero,
+               nan_value, inf_value):
+        neg_bad = ((not neg_maxval._s and neg_maxval._c != 0) or not on_grid(neg_maxval, nmin)) if neg_maxval is not None else False
+        fmt_bad = (maxval._s and maxval._c != 0) or not on_grid(maxval, nmin) or neg_bad
+        return {'ValueError': fmt_bad or mpbx2_subst_bad(nmin, maxval, neg_maxval, enable_nan, enable_inf, enable_neg_zero,
+                                                         nan_value, inf_value)}
+
+
+class MPBFixedContext___init___plain(Contract):
+    target = 'fpy2.number.context.mpb_fixed:MPBFixedContext.__init__'
+    params = {'self': 'MPBFixedContext', 'nmin': 'int', 'maxval': 'RealFloat', 'rm': 'RoundingMode',
+              'overflow': 'OverflowMode', 'num_randbits': 'int | None', 'neg_maxval': 'RealFloat | None',
+              'rng': 'RNG | None', 'enable_nan': 'bool', 'enable_inf': 'bool', 'enable_neg_zero': 'bool',
+              'nan_value': 'None', 'inf_value': 'None'}
+    returns = 'None'
+    properties = ['C01']
+    binds = {'self.nan_value': 'nan_value', 'self.inf_value': 'inf_value', 'self.rng': 'rng'}
+    split = ['neg_maxval']
+    inline = True      # the variant without substitutes (quick tier)
 
     def post(self, nmin, maxval, rm, overflow, num_randbits, neg_maxval, rng, enable_nan, enable_inf, enable_neg_zero,
              nan_value, inf_value, result):
